@@ -274,6 +274,18 @@ def rule_bust(ctx) -> None:
         ctx.check("cfg:t4.cache.namespaces" in atoms or any(a.startswith("cfg:t4.cache.namespaces") for a in atoms),
                   "C04.BUST", f"{APPLY}/invalidate-namespaces", fn.loc(c),
                   "the invalidated namespace iterates cfg:t4.cache.namespaces", f"invalidated namespace derives from {sorted(atoms)}")
+    # the invalidation itself completes: the fail-soft guard around it would hide a RuntimeError from a container edited
+    # while it is being walked (an "expire while counting" pass), leaving the namespace populated after a committed turn
+    from .. import hazards
+    n_cf = 0
+    for cf in ctx.prog.module("clematis.engine.cache").funcs.values():
+        n_cf += 1
+        for lp, hit, cont in hazards.mutation_during_iteration(ctx, cf):
+            ctx.violation("C04.BUST", ctx.okey(f"{cf.qual}/walk-does-not-resize"), cf.loc(hit),
+                          f"`{src(hit)[:40]}` resizes `{cont}` inside a loop that walks it directly: the first removal raises RuntimeError (changed size during iteration); apply_changes "
+                          "swallows it (fail-soft), so the turn commits and bumps the version while the namespace keeps its entries")
+    ctx.floor("C04.BUST", "functions of the cache manager scanned for walk-and-resize", n_cf, 15)
+    ctx.info("C04.BUST", "positive-control/walk-and-resize", "sa/hazards.py", hazards.controls(ctx, "clematis.engine.health", ["iter"]))
     # must: on the on-apply branch with a cache manager, an invalidate site is reached
 
 
